@@ -40,6 +40,8 @@ MANIFEST = {
 }
 BUDGET = {'quick': 75, 'thorough': 1500}
 MISMATCH_BUDGET = 0.0
+ESCALATE_BUDGET = 150
+SEARCH_BUDGET = 90
 RULE = ('label programs of 1-14 blocks over a per-program subset of the supported labels; each block carries 0-5 '
         'label operations (SET/INC; values small, large, zero, negative, booleans for flag labels), 0-3 '
         'triggers/digital outputs from a recurring pool, a delay and optionally ADC / trapezoid / RF; blocks repeat, '
